@@ -256,12 +256,14 @@ theorem stepFirst_halving {o : Opts K} {ti te : K} {s : LoopState K} {n : ℕ} (
   simp only [hdyn, Bool.false_eq_true, if_false]
   cases hr : r.first with
   | true =>
-    simp only [if_true, fc_abs]
+    simp only [if_true]
     by_cases hn' : n = 1
     · -- last step: t + dt = te
       have hte : te - (s.t + s.dt) = 0 := by rw [hn'] at hn; push_cast at hn; linarith
-      have : decide (|te - (s.t + s.dt)| < tEps) = true := by
-        rw [hte, abs_zero]; exact decide_eq_true htEpspos
+      have : decide ((fieldConsts ε).abs (te - (s.t + s.dt)) < tEps) = true := by
+        apply decide_eq_true
+        show |te - (s.t + s.dt)| < tEps
+        rw [hte, abs_zero]; exact htEpspos
       simp only [this, Bool.true_or]
       linarith
     · have hn2 : 2 ≤ n := by omega
@@ -277,9 +279,11 @@ theorem stepFirst_halving {o : Opts K} {ti te : K} {s : LoopState K} {n : ℕ} (
         calc s.dt = 1 * s.dt := (one_mul _).symm
           _ ≤ _ := mul_le_mul_of_nonneg_right hn1' hdtpos.le
       have hnonneg : 0 ≤ te - (s.t + s.dt) := le_trans hdtpos.le hge
-      have h1 : decide (|te - (s.t + s.dt)| < tEps) = false := by
+      have h1 : decide ((fieldConsts ε).abs (te - (s.t + s.dt)) < tEps) = false := by
+        apply decide_eq_false
+        show ¬ |te - (s.t + s.dt)| < tEps
         rw [abs_of_nonneg hnonneg]
-        exact decide_eq_false (not_lt.mpr (le_trans hdtge hge))
+        exact not_lt.mpr (le_trans hdtge hge)
       have h2 : decide (te < s.t + s.dt) = false := decide_eq_false (by linarith)
       simp only [h1, h2, Bool.or_self]
       refine ⟨n - 1, ⟨⟨by omega, hrem⟩, hdt, hsub⟩, ?_⟩
